@@ -165,7 +165,12 @@ Inductive op :=
 | ONewBlock (dt : Z)                      (* next block: height + 1, time + dt *)
 | OEndBlock                               (* staking EndBlocker *)
 | ORotate (v v' : Z)                      (* recovery MsgRotateRecoveryAddress (accepted): validator record moves to address v' *)
-| OGenesis.                               (* staking + slashing ExportGenesis, then InitGenesis into an empty store (InitChain) *)
+| OGenesis (over : list (Z * sinfo))      (* staking + slashing ExportGenesis, then InitGenesis into an empty store (InitChain);
+                                             over = signing infos edited in the exported genesis file before the import *)
+| OSetProp (which value : Z) (accepted : bool).
+                                          (* passed SetNetworkProperty proposal (handler Apply) for 0 MischanceConfidence, 1 MaxMischance,
+                                             2 MischanceRankDecreaseAmount, 3 DowntimeInactiveDuration, 4 UnjailMaxTime; accepted = what the
+                                             gov module's validation (C19) answered.  The settings are not part of [state]: see [next_cfg]. *)
 
 Inductive res := ROk | RRej | RPanic.
 Definition res_eqb (a b : res) : bool :=
@@ -281,11 +286,11 @@ Definition end_block (s : state) : state * res * list (Z * Z) :=
    the SDK module manager panics when it is empty *)
 Definition genesis_updates (s : state) : list (Z * Z) :=
   map (fun e : Z * vrec => (v_cons (snd e), 1)) (filter (fun e : Z * vrec => is_active (v_status (snd e))) (st_vals s)).
-Definition genesis_import (s : state) : state * res :=
+Definition genesis_import (over : list (Z * sinfo)) (s : state) : state * res :=
   let ups := genesis_updates s in
   let base := mkSt (st_vals s) [] [] []
                    (fold_left (fun a (e : Z * vrec) => upd (v_cons (snd e)) (fst e) a) (st_vals s) [])
-                   (st_si s) []
+                   (fold_left (fun a (e : Z * sinfo) => upd (fst e) (snd e) a) over (st_si s)) []
                    (fold_left (fun a (e : Z * vrec) => sadd (v_cons (snd e)) a) (st_vals s) [])
                    (st_time s) (st_height s) [] (st_halt s) in
   match ups with
@@ -354,10 +359,24 @@ Definition step (cfg : config) (s : state) (o : op) : state * res :=
           (mkSt (upd v' r (del v (st_vals s))) (st_pend s) (st_rm s) (st_re s) (upd (v_cons r) v' (del (v_cons r) (st_cidx s)))
                 (st_si s) (st_jail s) (st_pk s) (st_time s) (st_height s) (st_cset s) (st_halt s), ROk)
       end
-  | OGenesis => genesis_import s
+  | OGenesis over => genesis_import over s
+  | OSetProp _ _ accepted => (s, if accepted then ROk else RRej)
   end.
 
-Definition run (cfg : config) (s : state) (ops : list op) : state := fold_left (fun a o => fst (step cfg a o)) ops s.
+(* the settings in force after an operation *)
+Definition next_cfg (cfg : config) (o : op) : config :=
+  match o with
+  | OSetProp w x true =>
+      mkCfg (if w =? 0 then x else c_mc cfg) (if w =? 1 then x else c_maxm cfg) (if w =? 2 then x else c_rankdec cfg)
+            (c_inact_pct cfg) (c_minvals cfg) (if w =? 3 then x else c_downtime cfg) (if w =? 4 then x else c_unjail_max cfg)
+            (c_ev_age_dur cfg) (c_ev_age_blocks cfg)
+  | _ => cfg
+  end.
+
+Fixpoint run (cfg : config) (s : state) (ops : list op) : state :=
+  match ops with [] => s | o :: r => run (next_cfg cfg o) (fst (step cfg s o)) r end.
+Fixpoint cfg_after (cfg : config) (ops : list op) : config :=
+  match ops with [] => cfg | o :: r => cfg_after (next_cfg cfg o) r end.
 
 (* validators the application records as active, by consensus key *)
 Definition active_keys (s : state) : list Z :=
